@@ -208,14 +208,16 @@ def main(argv=None):
         # model driver
         driver_ok, drv_out = model.build_driver(mod.ID)
         tie_broken = []
-        for f, msg in gen_errors:
-            tie_broken.append(f"translator: {f}: {msg}")
+        # a failed translation leaves a Gen file that cannot compile: it breaks exactly the proofs / models that depend on it
+        gen_notes = [f"translator: {f}: {msg}" for f, msg in gen_errors]
         for b in bad:
             tie_broken.append(f"forbidden construct: {b}")
         if not proof["ok"]:
             tie_broken.append("proof: " + ("; ".join(proof["failed_at"]) or "Props/%s.v does not build" % pid))
+            tie_broken += [g for g in gen_notes if any(g.split(": ")[1][:-2] in fa for fa in proof["failed_at"])]
         if not driver_ok:
             tie_broken.append("model does not build: " + drv_out[-400:])
+            tie_broken += [g for g in gen_notes if g.split(": ")[1][:-2] in drv_out and g not in tie_broken]
         # 4/5. correspond + oracle
         cases = mod.cases(tier, seed)
         res = evaluate(mod, stage, cases, driver_ok)
